@@ -62,6 +62,13 @@ def run(ctx):
             viol += 1
             hdr_defs[h], hdr_decls[h] = set(), set()
             continue
+        # "a C99 program": no feature-test macros, no GNU extensions - what the header needs it has to get for itself
+        rc2, out2 = sh(["gcc", "-std=c99", "-pedantic-errors", "-I", str(inc), "-fsyntax-only", str(W / f"one_{h}.c")])
+        if rc2 != 0:
+            err = [l for l in out2.splitlines() if "error" in l]
+            violation(ctx, f"header {h}.h does not compile in a plain C99 translation unit (-std=c99, no feature-test macros): {(err or [''])[0].strip()}",
+                      {"signature": f"compile-plain:{h}", "output": out2[-2000:]})
+            viol += 1
         hdr_defs[h], _ = nm_syms(W / f"one_{h}.o")
         aux = W / f"one_{h}.aux"
         sh(["gcc", "-std=c99", "-D_POSIX_C_SOURCE=199309L", "-I", str(inc), "-aux-info", str(aux), "-fsyntax-only", str(W / f"one_{h}.c")])
